@@ -115,6 +115,10 @@ def run(mod, tier, seed, replay=None):
     # scheduler's arrival deadline), not the code under test. The number dropped is in the evidence.
     transient = 0
     def persists(line, is_pred):
+        # free-running contention cases are probabilistic by nature: one observed failure of such a
+        # case is conclusive (their oracle cannot fail on correct code), so it is not re-run
+        if hasattr(mod, "conclusive") and mod.conclusive(line):
+            return True
         for _ in range(2):
             i2, m2 = recheck(line)
             if is_pred:
